@@ -117,6 +117,9 @@ def step (s : St) (line : String) : St × String :=
       let f : File := { gen := s.maxG + 1, seq := 1, keys := sorted }
       ({ s with files := insertFile s.files f, maxG := s.maxG + 1 }, showContent (sorted.map fun (k, d) => digest k d.vals))
     | none => (s, "bad-op")
+  -- an error injected from a reader: the compaction fails and leaves its inputs, or loses
+  -- nothing (judged on the implementation's side; the model's answer is the acceptable one)
+  | ["rerr", _, _, _, _] => (s, "rerr handled")
   | ["all"] =>
     let parts := (allKeys s.files).filterMap fun k =>
       let v := mergeFiles (keyDatas s.files k)
